@@ -159,6 +159,7 @@ def c07(rec, tier):
     F = D(rec)
     f4_chan.run(rec, F)
     f1_isa.run_rewind(rec, F)
+    f4_sched.queue_once(rec, F)
     # a buffered value must survive collection while only the channel holds it
     f5_trace.run(rec, F, only_adts=("laythe_core::object::channel::channel_queue::ChannelQueue", "laythe_core::object::channel::Channel", "laythe_core::object::channel::channel_waiter::ChannelWaiter"))
 
